@@ -327,7 +327,11 @@ func c05Write(matFile string, ms []c05Mesh) (string, []byte) {
 		for i, m := range ms {
 			in[i] = obj.ObjMesh{Name: m.name, Mesh: m.mesh(pool)}
 		}
-		buf := objstlCapBuffer{Cap: 48 << 20} // far beyond anything a generated scene can legitimately produce
+		est := 4096 // a generous estimate of the legitimate text size; 4× that is the cap
+		for _, m := range ms {
+			est += 64 + 48*(len(m.pos)+len(m.uv)+len(m.nrm)) + 24*len(m.idx) + 40*len(m.mats)
+		}
+		buf := objstlCapBuffer{Cap: 4 * est}
 		err := obj.WriteMeshes(in, matFile, &buf)
 		if buf.Overflow {
 			return "oversize-output"
@@ -402,7 +406,11 @@ func c05ResaveOp(gs []obj.ObjMesh) string {
 func c05Resave(gs []obj.ObjMesh) (string, []byte) {
 	var text []byte
 	ans := Guard(func() string {
-		buf := objstlCapBuffer{Cap: 48 << 20}
+		est := 4096
+		for _, g := range gs {
+			est += 64 + 3*48*g.Mesh.AttributeLength() + 24*g.Mesh.Indices().Len() + 40*len(g.Mesh.Materials())
+		}
+		buf := objstlCapBuffer{Cap: 4 * est}
 		err := obj.WriteMeshes(gs, "", &buf)
 		if buf.Overflow {
 			return c05Hs("oversize-output")
@@ -427,6 +435,9 @@ func (c *Ctx) c05SceneCase(o c05Opts, holds string) {
 	c.Emit("c05.write", scene, wans)
 	if text == nil {
 		c.Note("write." + wans)
+		if wans == "oversize-output" { // the writer ran away: nothing that could round-trip
+			c.Emit("c05.holds.roundtrip", scene+" 0 0", "true")
+		}
 		return
 	}
 	rans, gs := c05Read(text)
@@ -886,6 +897,9 @@ func (c *Ctx) c05BigCase(nv, nt int, attr int, ranges int, span int, resave bool
 	wans, text := c05Write("", ms)
 	c.Emit("c05.write", scene, wans)
 	if text == nil {
+		if wans == "oversize-output" {
+			c.Emit("c05.holds.roundtrip", scene+" 0 0", "true")
+		}
 		return
 	}
 	rans, gs := c05Read(text)
